@@ -31,26 +31,32 @@ def _props():
             "engine": histsim.execute, "gen": histsim.plan_c15, "level": "exploration",
             "clauses": ["input_unmodified", "history_independent", "option_independent", "worker_independent", "keys_stable", "config_stable"],
             "quick": 1500, "thorough": 60000, "shrink": histsim.candidates,
+            "required_probes": ["compared_history_independent", "compared_option_independent", "compared_worker_independent", "pool_out_of_order", "clock_jump", "set_log_group_times"],
         },
         "C16": {
             "engine": aggsim.execute, "gen": plans.plan_c16, "level": "exploration",
             "clauses": ["header_once", "exactly_once", "row_intact", "no_exception", "no_deadlock", "stat_complete_rows"],
             "quick": 3000, "thorough": 200000,
+            "required_probes": ["blocked", "duplicate_submission_refused", "stat_built_nonempty", "stat_on_header_only_raised", "skipped_finished", "pool_out_of_order"],
         },
         "C17": {
             "engine": aggsim.execute, "gen": plans.plan_c17, "level": "fault_enumeration",
             "clauses": ["header_once", "exactly_once", "row_intact", "finished_skipped", "unfinished_redone", "no_exception", "no_deadlock"],
             "quick": 2500, "thorough": 60000, "sweeps_quick": 40, "sweeps_thorough": 3000,
+            "required_probes": ["kill", "interrupt", "restart_on_absent", "restart_on_empty", "restart_on_header", "restart_on_rows", "restart_with_stale_claims",
+                                "skipped_finished", "evaluated_unfinished", "sweep_crash_points"],
         },
         "C18": {
             "engine": aggsim.execute, "gen": plans.plan_c18, "level": "exploration",
             "clauses": ["loader_no_exception", "names", "value_roundtrip", "no_shift"],
             "quick": 3000, "thorough": 200000,
+            "required_probes": ["loader_checked", "loader_multi_group", "loader_missing_values", "loader_finite_values", "group_name_with_dash", "awkward_subject_name", "refused_different_setup"],
         },
         "C20": {
             "engine": aggsim.execute, "gen": plans.plan_c20, "level": "exploration",
             "clauses": ["summary", "one_subject", "across_groups", "order_independent"],
             "quick": 3000, "thorough": 200000,
+            "required_probes": ["summary_checked", "summary_with_missing", "summary_cancellation_prone_column", "across_groups_checked", "order_checked", "one_subject_checked"],
         },
     }
 
@@ -177,6 +183,7 @@ def main(argv=None):
     ap.add_argument("--wall-cap", type=float, default=None)
     ap.add_argument("--with-tests", action="store_true", help="selftest-mutants: also run the baseline suite on each mutant")
     ap.add_argument("--only", default=None, help="selftest-mutants: comma-separated mutant names")
+    ap.add_argument("--no-regression", action="store_true", help="skip the stored regression replays (used by the sensitivity self-test to judge the search alone)")
     args = ap.parse_args(argv)
 
     if args.prop.startswith("selftest"):
@@ -262,6 +269,8 @@ def do_search(args, cfg, base, t0):
     #    suppressed by signature), fixed ones must pass (regression seeds)
     active_known = []
     for e in known:
+        if args.no_regression and e.get("status") == "fixed":
+            continue
         rp_path = os.path.join(VERIF, e["replay"]) if e.get("replay") else None
         reproduced = None
         if rp_path and os.path.exists(rp_path):
@@ -422,6 +431,15 @@ def do_search(args, cfg, base, t0):
             log(f"HARNESS-ERROR nondeterminism: {len(diff)} of {len(sample)} re-executed runs differ, e.g. run {diff[0]}: {digests_by_idx[diff[0]]} vs {other.get(str(diff[0]))}")
             return 2
 
+    # 4. reach: a probe stuck at zero means the workload or fault mix no longer reaches what the
+    #    oracles are about; in the thorough tier that is a harness error, never a pass
+    stuck = [p_ for p_ in cfg.get("required_probes", []) if not (acc.notes.get(p_, 0) or acc.fired.get(p_, 0) or acc.stats.get(p_, 0))]
+    acc.notes["probes_stuck_at_zero"] = len(stuck)
+    if stuck:
+        log(f"NOTE: reach probes at zero: {stuck}")
+        if args.tier == "thorough" and exit_code == 0 and args.runs is None:
+            log("HARNESS-ERROR reach probes stuck at zero in the thorough tier")
+            return 2
     if not args.no_evidence:
         write_evidence(args, cfg, acc, t0, violations=len(replays), clause_counts=clause_counts)
     log(f"{prop} {args.tier}: {acc.runs} runs, {len(acc.digests)} distinct histories, {len(acc.nontrivial_digests)} non-trivial, {acc.steps} steps, "
